@@ -14,7 +14,7 @@ from ..order import Interp
 from ..algebra_lin import linear_form
 
 FILESET = "typhon/files/fileset.py"
-EXPECT = {"C16.shortcut": 3, "C16.window": 3, "C16.cover": 2, "C16.nearest": 2, "C16.single": 1, "C16.dispatch": 2}
+EXPECT = {"C16.keys": 2, "C16.shortcut": 3, "C16.window": 3, "C16.cover": 2, "C16.nearest": 2, "C16.single": 1, "C16.dispatch": 2}
 
 
 def _guards(node):
@@ -316,8 +316,52 @@ def rule_dispatch(ctx):
     ctx.ob("FileSet.__getitem__.closest", okc, "%s; then %s" % (norm(st), norm(rr)), "find_closest(time_args, filters=filters); None propagates; otherwise self.read(found)", node=c, func=f)
 
 
+def rule_keys(ctx):
+    """A timestamp in any notation find_closest understands: fileset[t] must hand every key that is not a slice to find_closest (an
+    `elif isinstance(t, (datetime, str))` without else answers numpy.datetime64 / date keys with None, the "no file" answer), and
+    to_datetime must return a plain datetime for a pandas.Timestamp (a datetime subclass numpy cannot subtract from datetimes: the
+    nearest-file computation raised TypeError for a Timestamp in a gap)."""
+    ctx.rule("C16.keys", "T1", "every non-slice key reaches find_closest; to_datetime turns a pandas.Timestamp into a python datetime")
+    f = ctx.func(FILESET, "FileSet.__getitem__")
+    flow = Flow(f)
+    fc = calls_in(f.node, "find_closest")
+    if len(fc) != 1:
+        raise AnalysisError("__getitem__: expected one self.find_closest(...) call")
+    from ..flow import guard_chain
+    gc = guard_chain(enclosing_stmt(fc[0]), implicit=True)
+    tests = [(str(norm(flow.resolve(t_, at=t_, depth=1))).replace(" ", ""), pol) for t_, pol in gc]
+    narrowing = [t_ for t_, pol in tests if pol and t_.startswith("isinstance(") and ("datetime" in t_ or "str" in t_)]
+    only_slice = all((not pol and t_.startswith("isinstance(") and t_.endswith(",slice)")) for t_, pol in tests)
+    if not narrowing and not only_slice:
+        raise AnalysisError("__getitem__: condition %s in front of find_closest not understood" % tests)
+    ctx.ob("FileSet.__getitem__.keys", only_slice, "find_closest is reached under: %s" % [("%s" if pol else "not %s") % t_ for t_, pol in tests],
+           "every key that is not a slice (str, datetime, date, numpy.datetime64, pandas.Timestamp ...): a type test that lets other timestamps fall through "
+           "returns None, the answer for 'no file'", node=fc[0], func=f,
+           witness=None if only_slice else {"fs[np.datetime64('2018-01-04')]": None, "fs.find_closest(np.datetime64('2018-01-04'))": "the file of that day"})
+    g = ctx.func("typhon/utils/timeutils.py", "to_datetime")
+    gflow = Flow(g)
+    obj = g.params[0]
+    TS = ["isinstance(%s, pd.Timestamp)" % obj, "isinstance(%s, pandas.Timestamp)" % obj]
+    DT = ["isinstance(%s, datetime)" % obj, "isinstance(%s, datetime.datetime)" % obj]
+    asm = {t_: True for t_ in TS + DT}
+    asm.update({"isinstance(%s, datetime) and not isinstance(%s, pd.Timestamp)" % (obj, obj): False, "not isinstance(%s, pd.Timestamp)" % obj: False})
+    rets = [r_ for r_ in gflow.stmts if isinstance(r_, ast.Return) and r_.value is not None and gflow.live_under(r_, asm, stop=(obj,))]
+    if len(rets) != 1:
+        raise AnalysisError("to_datetime: %d returns reachable for a pandas.Timestamp" % len(rets))
+    val = str(norm(gflow.resolve_under(rets[0].value, asm, at=rets[0], stop=(obj,)))).replace(" ", "")
+    if val == obj:
+        okt = False
+    elif val in ("%s.to_pydatetime()" % obj, "pd.to_datetime(%s).to_pydatetime()" % obj, "pd.Timestamp(%s).to_pydatetime()" % obj):
+        okt = True
+    else:
+        raise AnalysisError("to_datetime: value %s returned for a pandas.Timestamp not understood" % val)
+    ctx.ob("to_datetime.timestamp", okt, "a pandas.Timestamp is returned as %s" % val, "obj.to_pydatetime(): the Timestamp branch comes before `isinstance(obj, datetime)` "
+           "(Timestamp is a datetime subclass) - find_closest computes |coverage - t| with numpy on python datetimes", node=rets[0], func=g,
+           witness=None if okt else {"find_closest(pd.Timestamp('2018-01-05'))": "TypeError: unsupported operand type(s) for -: 'numpy.ndarray' and 'Timestamp'"})
+
+
 def run(ctx):
-    for r in (rule_shortcut, rule_window, rule_cover, rule_nearest, rule_single, rule_dispatch):
+    for r in (rule_shortcut, rule_window, rule_cover, rule_nearest, rule_single, rule_dispatch, rule_keys):
         ctx.attempt(r, ctx)
     # the window is computed from _sub_dir_time_resolution, which the path setter must keep current
     from . import C01
